@@ -130,6 +130,14 @@ def entry_points():
                          n_samples=2, seed=seed, return_df=False)
     eps['poppred'] = poppred
 
+    # a population without any random effect: the virtual patients are equal, their
+    # measurement noise is not
+    def poppred_pooled(seed):
+        pm = chi.PopulationPredictiveModel(_pred(1), chi.PooledModel(n_dim=3))
+        return pm.sample([1.0, 0.5, 0.3], TIMES, n_samples=3, seed=seed,
+                         return_df=False)
+    eps['poppred_pooled'] = poppred_pooled
+
     def priorpred(seed):
         pri = pints.ComposedLogPrior(
             pints.UniformLogPrior(0.5, 1.5), pints.UniformLogPrior(0.2, 0.8),
@@ -252,9 +260,9 @@ DISTINCT_CELLS = {'init:posterior', 'init:hierarchical', 'init:filter',
                   'init:filter3', 'init:hier_special', 'err:G', 'err:M', 'err:CM', 'err:LN', 'pop:G', 'pop:LNnc',
                   'pop:TG', 'pop:G3same', 'pop:LN3same', 'pop:TG3same',
                   'pop:redTG2', 'pred1', 'pred2', 'pred1rep', 'pred2rep',
-                  'poppred', 'poppred_rep'}
+                  'poppred', 'poppred_rep', 'poppred_pooled'}
 GENERATOR_OK = {'postpred_shared_a', 'postpred_shared_b', 'pop:G3same', 'pop:LN3same', 'pop:TG3same', 'pop:redTG2',
-                'pred1rep', 'pred2rep', 'poppred_rep', 'err:G', 'err:M', 'err:CM', 'err:LN', 'pop:G', 'pop:LNnc', 'pop:TG',
+                'pred1rep', 'pred2rep', 'poppred_rep', 'poppred_pooled', 'err:G', 'err:M', 'err:CM', 'err:LN', 'pop:G', 'pop:LNnc', 'pop:TG',
                 'pop:H', 'pop:comp', 'pop:compH', 'pop:compH2', 'pop:cov', 'pop:compcov', 'pred1', 'pred2', 'poppred',
                 'postpred', 'pam', 'priorpred', 'postpred2', 'pam2'}
 
@@ -454,6 +462,13 @@ def w_n_runs(case):
                                [1.0, 2.0], [0.5, 1.0])
         post = chi.LogPosterior(ll, pints.ComposedLogPrior(*[
             pints.UniformLogPrior(0.1, 2) for _ in range(3)]))
+    elif case['post'] == 'individual_wide':
+        # a prior with mass where the likelihood has none (negative noise scale):
+        # the starting points still are the seeded draws
+        ll = chi.LogLikelihood(ToyModel(2, 1), chi.GaussianErrorModel(),
+                               [1.0, 2.0], [0.5, 1.0])
+        post = chi.LogPosterior(ll, pints.ComposedLogPrior(*[
+            pints.GaussianLogPrior(0.1, 1.0) for _ in range(3)]))
     else:
         spec = rp.Comp([rp.G(1), rp.LN(1, False), rp.P(1)])
         post = chi.HierarchicalLogPosterior(
@@ -524,7 +539,7 @@ def build(tier, seed):
     runs = []
     alphabet = (1, 2, 3, 5)
     for ctrl in ('sampling', 'optimisation'):
-        for post in ('individual', 'hierarchical'):
+        for post in ('individual', 'hierarchical', 'individual_wide'):
             for d in (1, 2, 3):
                 for h in itertools.product(alphabet, repeat=d):
                     if tier == 'quick' and d == 3 and h[-1] != 3:
@@ -571,3 +586,10 @@ META = {
                   'seeds; the partition property (d) is checked for routines whose '
                   'cells are pure noise cells.',
 }
+META['level_text'] += (
+    ' Also: averaged predictive models with two outputs and >= 3 samples under the '
+    'sample-confined stream oracle (categorical answers included), prior predictive'
+    ' models around population predictive models of every kind, heterogeneous sub-m'
+    'odels of several individuals inside compositions, initial-point entry points i'
+    'n the stream part, controllers on posteriors whose prior has mass where the li'
+    'kelihood has none.')
